@@ -1327,3 +1327,33 @@ def m_fs_copy(it, argv, text):
         return err(io_error('NotFound'))
     r = m_fs_write(it, [argv[1], VecV(tuple(src[2]))], text)
     return r if r.idx == 1 else ok(len(src[2]))
+
+
+@emodel('Write::write')
+def m_write_once(it, argv, text):
+    """a single write: returns how many bytes were accepted.  BufWriter: buffered if it fits; a chunk of at least one
+    capacity goes to the file with one write call, which may be short (fault `short-write`) or fail"""
+    env = env_of(it)
+    w = it.deref_all(argv[0])
+    data = it.deref_all(argv[1])
+    bs = data.b if isinstance(data, StrV) else tuple(it.as_seq(argv[1]))
+    if w.kind not in ('BufWriter', 'File'):
+        return ok(len(bs))
+    h = env.handles[w.data]
+    if w.kind == 'BufWriter':
+        if len(h['buf']) + len(bs) > Env.BUFCAP:
+            if env.maybe_fail('write', comps_to_bytes(h['comps'])):
+                return err(io_error('StorageFull'))
+            env._append(h, h['buf'])
+            h['buf'] = []
+        if len(bs) < Env.BUFCAP:
+            h['buf'] = list(h['buf']) + list(bs)
+            return ok(len(bs))
+    if env.maybe_fail('write', comps_to_bytes(h['comps'])):
+        return err(io_error('StorageFull'))
+    if len(bs) > 1 and env.maybe_fail('short-write', comps_to_bytes(h['comps'])):
+        k = len(bs) // 2
+        env._append(h, bs[:k])
+        return ok(k)
+    env._append(h, bs)
+    return ok(len(bs))
